@@ -52,7 +52,7 @@ public:
   bool tryPush(const T& item) noexcept(std::is_nothrow_copy_assignable_v<T>)
   {
     auto head = _head.load(std::memory_order_relaxed);
-    auto tail = _tail.load(std::memory_order_relaxed);
+    auto tail = _tail.load(std::memory_order_acquire);
     if (head - tail >= Capacity)
     {
       return false;
@@ -66,7 +66,7 @@ public:
   bool tryPush(T&& item) noexcept(std::is_nothrow_move_assignable_v<T>)
   {
     auto head = _head.load(std::memory_order_relaxed);
-    auto tail = _tail.load(std::memory_order_relaxed);
+    auto tail = _tail.load(std::memory_order_acquire);
     if (head - tail >= Capacity)
     {
       return false;
@@ -109,7 +109,7 @@ public:
     noexcept(std::is_nothrow_copy_assignable_v<T>)
   {
     auto head = _head.load(std::memory_order_relaxed);
-    auto tail = _tail.load(std::memory_order_relaxed);
+    auto tail = _tail.load(std::memory_order_acquire);
     auto available = Capacity - (head - tail);
     auto toPush = count < available ? count : available;
 
@@ -193,7 +193,7 @@ public:
   bool tryPush(const T& item) noexcept(std::is_nothrow_copy_assignable_v<T>)
   {
     auto head = _head.load(std::memory_order_relaxed);
-    auto tail = _tail.load(std::memory_order_relaxed);
+    auto tail = _tail.load(std::memory_order_acquire);
     if (head - tail >= _capacity)
     {
       return false;
@@ -206,7 +206,7 @@ public:
   bool tryPush(T&& item) noexcept(std::is_nothrow_move_assignable_v<T>)
   {
     auto head = _head.load(std::memory_order_relaxed);
-    auto tail = _tail.load(std::memory_order_relaxed);
+    auto tail = _tail.load(std::memory_order_acquire);
     if (head - tail >= _capacity)
     {
       return false;
@@ -245,7 +245,7 @@ public:
     noexcept(std::is_nothrow_copy_assignable_v<T>)
   {
     auto head = _head.load(std::memory_order_relaxed);
-    auto tail = _tail.load(std::memory_order_relaxed);
+    auto tail = _tail.load(std::memory_order_acquire);
     auto available = _capacity - (head - tail);
     auto toPush = count < available ? count : available;
     for (std::size_t i = 0; i < toPush; ++i)
